@@ -529,6 +529,9 @@ class Ctx:
                     msg = fam.oracle(c, o)
                 except Exception as e:  # noqa: BLE001
                     msg = f'oracle crashed: {e!r}'
+                if isinstance(msg, tuple):  # (message, extra description keys for known-finding matching)
+                    msg, extra = msg
+                    d = {**d, **extra}
                 if msg:
                     self.problem('property', fam.name, c, msg, d, got=o)
                     continue
@@ -541,6 +544,9 @@ class Ctx:
                 except Exception as e:  # noqa: BLE001
                     msg = f'compare crashed: {e!r} {traceback.format_exc()[-300:]}'
                 self.traces_validated += 1
+                if isinstance(msg, tuple):
+                    msg, extra = msg
+                    d = {**d, **extra}
                 if msg:
                     self.problem('correspondence', fam.name, c, msg, d, expected=mv, got=o)
 
